@@ -37,6 +37,13 @@ Theorem regex_like_sound : forall (eqc : N -> N -> bool) (p s : list N),
 Proof. exact C20_Like.regex_like_sound_gen. Qed.
 Print Assumptions regex_like_sound.
 
+(* the per-row flag semantics used as the spec of regexp_is_match with a flags array (s, m, i on ASCII)
+   restricts, for flags "s", to the reference semantics above *)
+Theorem rx_flags_s_is_reference : forall (eqc : N -> N -> bool) (r : rx) (s : list N),
+  rx_is_match_f eqc true false r s = rx_is_match eqc r s.
+Proof. exact C20_Like.rx_flags_s_is_reference. Qed.
+Print Assumptions rx_flags_s_is_reference.
+
 (* ---- UTF-8 self-synchronisation: byte-level occurrence <-> code-point occurrence *)
 Theorem utf8_substring_lemma : forall n h : list N,
   Forall (fun c => scalar c = true) n -> Forall (fun c => scalar c = true) h ->
